@@ -80,6 +80,10 @@ ancestors>`; C10-r103) and follows a mirror-list alias chosen by a constant flag
 `outside_links_by_identity` REFUTES an owner test written with `!=` / `==` once WBS defines `__eq__` (C10-r101);
 `WBS(**<the source's own __dict__>)` is REFUTED in wbs-attrs (kwargs go to the hidden root task; C10-r42), other keyword-only
 constructor calls are an empty new WBS, `**` of unknown origin is UNDECIDED (no claim: C07-r102).
+Round 11: `fields` - a private field whose public setter stores a value DERIVED from its argument (`self.__milestone =
+bool(value)`, C04-r112) is still fed by the constructor parameter of that name: REFUTED when Task.clone does not pass it,
+accepted when the conversion is idempotent (bool/int/float/str, None-guarded) and the getter's value is handed back, UNDECIDED
+for any other conversion.  (A consistently renamed private field is mapped back by the normaliser, not by this module.)
 Not decided (C10-r71): duplicate / overlapping roots handed to the children setter - the outcome depends on the counting
 logic of task._has_id_intersection (id-uniqueness check, C05), which this module does not read.
 
